@@ -148,27 +148,37 @@ bool hazard_eras<Traits>::guard_ptr<T, MarkedPtr>::acquire_if_equal(const concur
     return false;
   }
 
-  const auto era = era_clock.load(std::memory_order_relaxed);
-  if (he != nullptr && he->guards() == 1) {
-    he->set_era(era);
-  } else {
-    if (he != nullptr) {
-      he->release_guard();
-      // alloc_hazard_era can throw - make sure we do not release the guard a second time in that case
-      // and that the guard does not keep a pointer it no longer protects
-      he = nullptr;
-      this->ptr.reset();
+  auto era = era_clock.load(std::memory_order_relaxed);
+  for (;;) {
+    if (he != nullptr && he->guards() == 1) {
+      he->set_era(era);
+    } else {
+      if (he != nullptr) {
+        he->release_guard();
+        // alloc_hazard_era can throw - make sure we do not release the guard a second time in that case
+        // and that the guard does not keep a pointer it no longer protects
+        he = nullptr;
+        this->ptr.reset();
+      }
+
+      he = local_thread_data().alloc_hazard_era(era);
     }
 
-    he = local_thread_data().alloc_hazard_era(era);
-  }
+    // acquire for the same reason as in (2)
+    this->ptr = p.load(order);
+    if (this->ptr != p1) {
+      reset();
+      return false;
+    }
 
-  this->ptr = p.load(std::memory_order_relaxed);
-  if (this->ptr != p1) {
-    reset();
-    return false;
+    // The published era only protects the object if the era clock has not advanced in the meantime;
+    // otherwise p may by now refer to a different object (created in a later era at the same address).
+    const auto new_era = era_clock.load(std::memory_order_relaxed);
+    if (new_era == era) {
+      return true;
+    }
+    era = new_era;
   }
-  return true;
 }
 
 template <class Traits>
